@@ -327,7 +327,8 @@ fn c14_o1_refresh_on_contact() {
 //@ tier: thorough
 //@ cap: 2400
 //@ standins: vcoll
-//@ desc: remove(id) deletes exactly the entry with that id (nothing else, no effect for unknown ids); reset_id(new) re-buckets every entry: afterwards each entry sits in the bucket of its distance to the new id, ids are distinct, nothing with the new id remains
+//@ also: C20
+//@ desc: remove(id) deletes exactly the entry with that id (nothing else, no effect for unknown ids); reset_id(new) re-buckets every entry: afterwards each entry sits in the bucket of its distance to the new id, ids are distinct, nothing with the new id remains, and the table's lookup statistics (sample counters and sums, which mirror the cached lookups) are untouched
 //@ bounds: 2-entry table (private IPs, symbolic id byte 1), symbolic removal id byte, new id [b0,0..] symbolic first byte; unwind 21; P: at most 4 distinct (ip, r) arguments; RoutingTableIterator::next 163
 //@ stubs: std::time::Instant::now -> symbolic whole-second clock; id::id_prefix_ipv4 (BEP42 CRC32C) -> uninterpreted function P(ip, r) (ghost table; the real CRC is bound by C19.O3 / C11.O1)
 //@ functions: RoutingTable::{remove,reset_id,add,to_owned_nodes}, KBucket::remove
@@ -360,8 +361,17 @@ fn c12_o4_remove_and_rekey() {
         nb[0] = kani::any();
         nb[1] = kani::any();
         let new_id = Id::from(nb);
+        // the lookup statistics belong to the cached lookups (C20), not to the id: re-keying keeps them
+        let (c1, c2, c3): (usize, usize, usize) = (kani::any(), kani::any(), kani::any());
+        rt.dht_size_estimates_count = c1;
+        rt.responders_samples_count = c2;
+        rt.responders_subnets_sum = c3;
+        rt.dht_size_estimates_sum = 4.0;
+        rt.responders_size_estimates_sum = 8.0;
         rt.reset_id(new_id);
         assert!(*rt.id() == new_id, "C12.O4 reset_id sets the id");
+        assert!(rt.dht_size_estimates_count == c1 && rt.responders_samples_count == c2 && rt.responders_subnets_sum == c3, "C20 re-keying keeps the lookup statistics counters");
+        assert!(rt.dht_size_estimates_sum == 4.0 && rt.responders_size_estimates_sum == 8.0, "C20 re-keying keeps the lookup statistics sums");
         let mut it = rt.nodes();
         let e0 = it.next();
         let e1 = it.next();
